@@ -34,8 +34,8 @@ CHECKS = {
    note="Trusted: database/sql (real) above the driver; SimDB's strict INSERT grammar; identifiers restricted to an alphabet that cannot collide with the syntax."),
  "C15": dict(engine="iofault", level="fault_enumeration", design="§3 C15",
    technique="deterministic simulation with fault injection: exhaustive enumeration of fault positions and shapes per seeded input over simulated reader, writer and database driver",
-   text="For each seeded input every position at which the reader, writer or driver can start failing is executed (byte offsets incl. 'instead of EOF', every driver call incl. each Rows.Next), in both shapes ((0,err) and data-with-error / short write), with identity-sensitive error values at every position and a fresh fragmentation plan each time. Oracle: never a panic; fault fired => error reported; no error => result identical to the fault-free run / writer received the complete output. Exhaustive in the fault dimension per input, sampled over inputs.",
-   note="Trusted: the stubs obey the io and database/sql/driver contracts; a reference client decides whether database/sql surfaced a driver failure at all. Tx-context cancellation is excluded (not replayable)."),
+   text="For each seeded input every position at which the reader, writer or driver can start failing is executed (byte offsets incl. 'instead of EOF', every driver call incl. each Rows.Next), in three shapes ((0,err) for good, data-with-error / short write for good, and a transient failure after which the stub works again), with identity-sensitive error values at every position, a fresh fragmentation plan each time, small scan buffers under ReadCSV faults, and readers/writers that additionally implement io.WriterTo / io.ByteReader / io.ByteWriter / io.StringWriter. Oracle: never a panic; fault fired => error reported; no error => result identical to the fault-free run / writer received the complete output. Exhaustive in the fault dimension per input, sampled over inputs.",
+   note="Trusted: the stubs obey the io and database/sql/driver contracts. driver.ErrBadConn may be absorbed by database/sql (retry), so for it only 'no error => nothing lost' is demanded. Tx-context cancellation is excluded (not replayable). Inputs are small (every position is executed for every input); size thresholds of hundreds of rows are left to C13/C14/C19."),
  "C04": dict(engine="hashsim", level="exploration", design="§3 C04, C05",
    technique="deterministic simulation: the hash function and math/rand are simulated environment (seeded hash flavours incl. forced collision patterns); oracle = reference partition/aggregation model",
    text="Seeded exploration of frames x key columns x Null x hash flavours. The hash function is per-process environment nondeterminism that no test controls; behind the hook the simulator chooses it, so collision chains, growth/rehash timing, 32-bit truncation clashes and hash/equality agreement are exercised on purpose. QFrames() must equal the reference partition (each class in frame order), Aggregate must return one row per class with the class key and every aggregate equal to the fold of exactly that class's values in frame order (recording user functions check the exact slices handed out). Sampling, not proof.",
@@ -47,10 +47,10 @@ CHECKS = {
  "C01": dict(engine="family", level="exploration", design="§3 C01",
    technique="deterministic simulation: simulated caller threads under a seeded cooperative scheduler (PCT / random walk) over go/ast-injected loop-level scheduling points; oracle = every member of a storage-sharing family equals its creation-time snapshot",
    text="Seeded exploration of operation histories over a growing family of frames, groupers and views that share column and index storage, executed by 1..3 simulated clients whose interleaving at loop granularity is decided by the seed. Invariant I1 (every earlier member, and every slice handed to New, is observably what it was at creation) is evaluated after every operation and at sampled scheduler steps inside other clients' operations, which is what exposes a mutate-then-restore of shared storage. Sampling of an unbounded history space, not proof.",
-   note="Trusted: obs/digest through the public accessors; yields at loop heads of a scratch copy (the code under test is otherwise the real qframe); single-client runs are ordinary model-based stateful testing and are counted separately in the evidence."),
+   note="Trusted: obs/digest through the public accessors; yields at loop heads of a scratch copy (plus, in the thorough tier, before every indexed/selector/pointer assignment), sync.Mutex/RWMutex/Once replaced there by cooperative equivalents (the code under test is otherwise the real qframe); single-client runs are ordinary model-based stateful testing and are counted separately in the evidence."),
  "C11": dict(engine="family+race", level="exploration", design="§3 C11, §2.3, §2.4",
    technique="deterministic simulation of concurrent callers (seeded cooperative scheduler over injected yields; oracle: result under the schedule == result alone) + the same seeded programs on free goroutines under the Go race detector",
-   text="Two phases over the same generated world. (1) Deterministic: 2..4 simulated clients, interleaving chosen by PCT/random-walk at loop granularity; every operation's canonical result must equal its result when re-run alone (the sequential specification of an immutable value is stateless, so this is the linearizability check), no member of the family may change, and the clients must terminate within a step bound derived from their sequential cost. (2) Race: the same programs on 2..8 free-running goroutines against an uninstrumented -race build; any report of the race detector, any panic and any result difference is a violation. Phase 2 observes real executions: stated, and justified in DESIGN.md §2.4 (scheduler hand-offs are happens-before edges that would blind the detector).",
+   text="Two phases over the same generated world. (1) Deterministic: 2..4 simulated clients, interleaving chosen by PCT/random-walk at loop granularity; every operation's canonical result must equal (a) its result when re-run alone and (b) its result on fresh copies of its operands rebuilt from their observations (the sequential specification of an immutable value is stateless, so this is the linearizability check; (b) makes 'alone' independent of whatever earlier operations left behind on shared storage), no member of the family may change, and a client whose operation consumes far more scheduling points than the same operation needs alone, or that deadlocks on a lock, is a liveness violation. Programs include 'storms' (all clients run one operation on one receiver), sibling derivations, failing writers, and occasionally base frames of 1024..2600 rows. (2) Race: the same programs on 2..8 free-running goroutines against an uninstrumented -race build; any report of the race detector, any panic and any result difference is a violation. Phase 2 observes real executions: stated, and justified in DESIGN.md §2.4 (scheduler hand-offs are happens-before edges that would blind the detector).",
    note="Trusted: the Go race detector (no false positives); the harness shares nothing between goroutines but the qframe values and a start channel. A race that needs a third party the programs never create (user code mutating an eval.Context concurrently) is misuse and out of scope."),
 }
 
